@@ -3,7 +3,8 @@
 Additional evidence on the DESIGN level (DESIGN.md section 5, last paragraph); the
 deciding checks of C04 / C10 / C09 stay TLC + conformance.  notes/G12.md has the details.
 
-For each of Clients (C04), Dhcp4 (C10), Stats (C09) there is a typed re-statement
+For each of Clients (C04), Dhcp4 (C10), RateLimit (C12; instead of Stats (C09), whose inductive
+step Apalache cannot discharge: notes/G12.md) there is a typed re-statement
 specs/ind/<M>Ind.tla over unbounded constants with an inductive invariant IndInv, and
 
   * TLC CORRESPONDENCE runs (specs/ind/<M>RefA.tla: root = the original module, the Ind
@@ -61,8 +62,7 @@ Q, T, QT = ("quick",), ("thorough",), ("quick", "thorough")
 MUT_CLIENTS = ("ClientsInd.tla", "IF Clashes(rest, c) THEN [out |-> \"err\", reg |-> R]",
                "IF c.name \\in NamesOf(rest) THEN [out |-> \"err\", reg |-> R]")
 MUT_DHCP = ("Dhcp4Ind.tla", "FreeAddrs(S)  == {a \\in Pool : On(S, a) = {}}", "FreeAddrs(S)  == Pool")
-MUT_STATS = ("StatsInd.tla", "           /\\ db' = Persisted\n           /\\ cur' = Zero",
-             "           /\\ db' = db\n           /\\ cur' = Zero")
+MUT_RATE = ("RateLimitInd.tla", "until |-> IF n1 >= n THEN now + b ", "until |-> IF n1 >= n THEN now ")
 
 OBLIGATIONS = [
     # ------------------------------------------------------------------ Clients (C04)
@@ -99,32 +99,53 @@ OBLIGATIONS = [
         what="IndInv /\\ Next => IndInv'"),
     apa("dhcp4.step.T", "Dhcp4IndApa", "IndInv", "IndInitT", 1, cinit="CInitT", tiers=T, timeout=900,
         what="IndInv /\\ Next => IndInv' (larger bounds)"),
-    apa("dhcp4.stepB", "Dhcp4IndApa", "IndInvB", "IndInitBQ", 1, cinit="CInitQ",
+    apa("dhcp4.stepB", "Dhcp4IndApa", "IndInvB", "IndInitBQ", 1, cinit="CInitQ", tiers=T,
         what="(IndInv /\\ BoundedStatics) inductive"),
-    apa("dhcp4.safetyA", "Dhcp4IndApa", "SafetyA", "IndInitQ", 0, cinit="CInitQ", what="IndInv => Safety (1/3)"),
-    apa("dhcp4.safetyB", "Dhcp4IndApa", "SafetyB", "IndInitQ", 0, cinit="CInitQ", what="IndInv => Safety (2/3)"),
-    apa("dhcp4.safetyC", "Dhcp4IndApa", "SafetyC", "IndInitQ", 0, cinit="CInitQ", what="IndInv => Safety (3/3)"),
+    apa("dhcp4.safetyA", "Dhcp4IndApa", "SafetyA", "IndInitS", 0, cinit="CInitS", tiers=Q, what="IndInv => Safety (1/3)"),
+    apa("dhcp4.safetyB", "Dhcp4IndApa", "SafetyB", "IndInitS", 0, cinit="CInitS", tiers=Q, what="IndInv => Safety (2/3)"),
+    apa("dhcp4.safetyC", "Dhcp4IndApa", "SafetyC", "IndInitS", 0, cinit="CInitS", tiers=Q, what="IndInv => Safety (3/3)"),
+    apa("dhcp4.safetyA.T", "Dhcp4IndApa", "SafetyA", "IndInitQ", 0, cinit="CInitQ", tiers=T, timeout=900,
+        what="IndInv => Safety (1/3, larger bounds)"),
+    apa("dhcp4.safetyB.T", "Dhcp4IndApa", "SafetyB", "IndInitQ", 0, cinit="CInitQ", tiers=T, timeout=900,
+        what="IndInv => Safety (2/3, larger bounds)"),
+    apa("dhcp4.safetyC.T", "Dhcp4IndApa", "SafetyC", "IndInitQ", 0, cinit="CInitQ", tiers=T, timeout=900,
+        what="IndInv => Safety (3/3, larger bounds)"),
     apa("dhcp4.statics", "Dhcp4IndApa", "StaticsStable", "IndInitQ", 1, cinit="CInitQ", next_="ProtocolNext",
         what="IndInv /\\ ProtocolNext => reservations unchanged"),
     apa("dhcp4.neg", "Dhcp4IndApa", "IndInv", "IndInitQ", 1, cinit="CInitQ", expect="cex", mutate=MUT_DHCP,
         what="negative control: allocation that ignores occupied addresses must break IndInv"),
-    apa("dhcp4.bmc", "Dhcp4IndApa", "SafetyA", "Init", 3, cinit="CInitQ", tiers=T, timeout=900,
-        what="bounded check from Init, 3 steps"),
-    tlaps("dhcp4.tlaps", "Dhcp4Proof", what="TLAPS: Spec => []IndInv, IndInv => address/reservation safety"),
-    # ------------------------------------------------------------------ Stats (C09)
-    tlc("stats.refA.mc", "StatsRefA", "StatsRefA.mc.cfg", group="stats.mc", workers=4,
-        what="Stats!Spec => StatsInd!Spec; IndInv, Safety invariants of Stats (Stats.mc.cfg)"),
-    tlc("stats.refB.mc", "StatsRefB", "StatsRefB.mc.cfg", group="stats.mc", workers=4,
-        what="StatsInd!Spec => Stats!Spec (Stats.mc.cfg)"),
-    apa("stats.init", "StatsIndApa", "IndInv", "Init", 0, cinit="CInit", cfg="StatsIndApa.cfg",
-        what="Init => IndInv"),
-    apa("stats.step", "StatsIndApa", "IndInv", "IndInit", 1, cinit="CInit", cfg="StatsIndApa.cfg", timeout=900,
+    apa("dhcp4.bmc", "Dhcp4IndApa", "SafetyA", "Init", 2, cinit="CInitQ", tiers=T, timeout=900,
+        what="bounded check from Init, 2 steps"),
+    tlaps("dhcp4.tlaps", "Dhcp4Proof", what="TLAPS: Spec => []IndInv, IndInv => the single-state invariants of C10"),
+    # ------------------------------------------------------------------ RateLimit (C12, first half)
+    tlc("ratelimit.refA.mc", "RateLimitRefA", "RateLimitRefA.mc.cfg", group="ratelimit.mc",
+        what="RateLimit!Spec => RateLimitInd!Spec; IndInv, Safety, step properties on RateLimit (RateLimit.mc.cfg)"),
+    tlc("ratelimit.refB.mc", "RateLimitRefB", "RateLimitRefB.mc.cfg", group="ratelimit.mc",
+        what="RateLimitInd!Spec => RateLimit!Spec (RateLimit.mc.cfg)"),
+    apa("ratelimit.init", "RateLimitIndApa", "IndInv", "Init", 0, cinit="CInit", what="Init => IndInv"),
+    apa("ratelimit.step", "RateLimitIndApa", "IndInv", "IndInit", 1, cinit="CInit", tiers=Q,
         what="IndInv /\\ Next => IndInv'"),
-    apa("stats.safety", "StatsIndApa", "Safety", "IndInit", 0, cinit="CInit", cfg="StatsIndApa.cfg", timeout=900,
-        what="IndInv => Conservation /\\ OldNotReported"),
-    apa("stats.neg", "StatsIndApa", "IndInv", "IndInit", 1, cinit="CInit", cfg="StatsIndApa.cfg", expect="cex",
-        mutate=MUT_STATS, timeout=900,
-        what="negative control: Close that forgets the current unit must break IndInv"),
+    apa("ratelimit.step.T", "RateLimitIndApa", "IndInv", "IndInitT", 1, cinit="CInitT", tiers=T, timeout=900,
+        what="IndInv /\\ Next => IndInv' (larger bounds)"),
+    apa("ratelimit.safety", "RateLimitIndApa", "Safety", "IndInit", 0, cinit="CInit",
+        what="IndInv => TypeOK /\\ NoBlockBeforeLimit /\\ LimitIsSharp"),
+    apa("ratelimit.props", "RateLimitIndApa", "StepProps", "IndInit", 1, cinit="CInit",
+        what="IndInv /\\ Next => the five step properties (BlockedNeverEvaluates .. OthersUntouched)"),
+    apa("ratelimit.neg", "RateLimitIndApa", "IndInv", "IndInit", 1, cinit="CInit", expect="cex", mutate=MUT_RATE,
+        what="negative control: a block of zero length must break IndInv"),
+    apa("ratelimit.bmc", "RateLimitIndApa", "Safety", "Init", 4, cinit="CInit", tiers=T, timeout=900,
+        what="bounded check from Init, 4 steps"),
+    tlaps("ratelimit.tlaps", "RateLimitProof", what="TLAPS: Spec => []IndInv, IndInv => Safety"),
+    # ------------------------------------------------------------------ Stats (C09): NOT discharged
+    # The inductive step of StatsInd is beyond Apalache within any reasonable time box (bag folds, see
+    # notes/G12.md); what does go through is kept in the thorough tier so that the candidate stays honest:
+    # correspondence, Init => IndInv, and TLC finding the candidate true in every reachable state.
+    tlc("stats.candidate.refA", "StatsRefA", "StatsRefA.mc.cfg", tiers=T, group="stats.mc", workers=4,
+        what="Stats!Spec => StatsInd!Spec; the CANDIDATE IndInv holds in every reachable state of Stats.mc.cfg (no proof of inductiveness)"),
+    tlc("stats.candidate.refB", "StatsRefB", "StatsRefB.mc.cfg", tiers=T, group="stats.mc", workers=4,
+        what="StatsInd!Spec => Stats!Spec (Stats.mc.cfg)"),
+    apa("stats.candidate.init", "StatsIndApa", "IndInv", "Init", 0, cinit="CInit", cfg="StatsIndApa.cfg", tiers=T,
+        what="Init => candidate IndInv (the inductive step is NOT discharged)"),
 ]
 
 
@@ -250,15 +271,19 @@ def run_tlaps(ctx, ob):
 
 RUN = {"apalache": run_apalache, "tlc": run_tlc, "tlaps": run_tlaps}
 # rough cost (for scheduling the long jobs first)
-COST = {"stats.step": 9, "stats.neg": 8, "stats.safety": 8, "clients.refA.set": 9, "clients.refB.set": 9,
+COST = {"dhcp4.safetyA.T": 9, "dhcp4.safetyB.T": 9, "dhcp4.safetyC.T": 9, "ratelimit.step.T": 9, "ratelimit.step": 6,
+        "ratelimit.bmc": 8, "ratelimit.tlaps": 6, "stats.candidate.refA": 5, "stats.candidate.refB": 5, "clients.refA.set": 9, "clients.refB.set": 9,
         "dhcp4.step.T": 9, "dhcp4.bmc": 8, "clients.step.T": 7, "dhcp4.safetyC": 6, "dhcp4.safetyB": 5,
         "dhcp4.safetyA": 5, "stats.refA.mc": 5, "stats.refB.mc": 5, "dhcp4.refA.mc": 5, "clients.tlaps": 6,
         "dhcp4.tlaps": 6}
 
 
-def generated_in_sync(ctx):
-    """Dhcp4Ind.tla / StatsInd.tla are generated from the owners' modules: they must be current."""
-    for gen in ("mkdhcp4ind.py", "mkstatsind.py"):
+GENERATORS = {"dhcp4": "mkdhcp4ind.py", "stats": "mkstatsind.py", "ratelimit": "mkratelimitind.py"}
+
+
+def generated_in_sync(ctx, obs):
+    """Dhcp4Ind / RateLimitInd / StatsInd.tla are generated from the owners' modules: they must be current."""
+    for gen in sorted({GENERATORS[k] for o in obs for k in GENERATORS if o["name"].startswith(k)}):
         p = subprocess.run([sys.executable, os.path.join(IND, gen), "--check"], capture_output=True, text=True, timeout=60)
         if p.returncode != 0:
             raise vlib.Inconclusive("%s: %s -- the original module changed; regenerate with --write and re-run G12"
@@ -283,12 +308,12 @@ def execute(ctx, obs, parallel):
 
 
 def run(ctx):
-    generated_in_sync(ctx)
     obs = [o for o in OBLIGATIONS if ctx.tier in o["tiers"]]
     only = os.environ.get("G12_ONLY")
     if only:
         obs = [o for o in obs if re.search(only, o["name"])]
-    results = execute(ctx, obs, parallel=int(os.environ.get("G12_PARALLEL", "7" if ctx.quick else "6")))
+    generated_in_sync(ctx, obs)
+    results = execute(ctx, obs, parallel=int(os.environ.get("G12_PARALLEL", "10" if ctx.quick else "8")))
     return conclude(ctx, results)
 
 
@@ -367,7 +392,7 @@ def conclude(ctx, results):
     assumptions = [
         "design-level evidence only: nothing here touches /repo; the binding to the code is C04/C10/C09's",
         "Apalache obligations quantify over arbitrary elements but sets of bounded size (Gen(n)); only the TLAPS proofs are unbounded",
-        "StatsInd: window geometry fixed as in Stats.mc.cfg; only the number of counted queries is unbounded",
+        "Stats (C09) is NOT covered: its inductive step is not discharged (thorough only re-checks the candidate on reachable states)",
         "the lifting to universes TLC does not enumerate rests on the Ind module being the same transition relation "
         "(textual identity for Dhcp4/Stats, per-action argument for Clients) -- mechanically checked on the small universes only",
     ]
@@ -380,5 +405,5 @@ def replay(ctx, path):
     obs = [o for o in OBLIGATIONS if o["name"] == rec["obligation"]]
     if not obs:
         raise vlib.Inconclusive("unknown obligation %r" % rec.get("obligation"))
-    generated_in_sync(ctx)
+    generated_in_sync(ctx, obs)
     return conclude(ctx, execute(ctx, obs, 1))
